@@ -6,3 +6,4 @@ pub mod parser;
 pub mod printer;
 pub mod strings;
 pub mod schema;
+pub mod execvalid;
